@@ -95,7 +95,14 @@ FOCUS9 = {
     "C20": "allocation failures inside the receive paths of transports (tcp, ipc, websocket, udp reassembly), inside protocol receive callbacks (duplicating a message for several contexts or subscribers, moving headers), in nng_ctx_open / nng_ctx_send / nng_ctx_recv, and when a further peer connects to a listener that already serves others: 'the documented best-effort loss of one message or one connection' and nothing else",
     "C01": "zero-length messages interleaved with large ones, messages of exactly the transports' internal buffer or frame sizes and one byte around them, several senders (contexts or threads) sharing one connection ('messages that travel over the same connection arrive in the order they were sent'), ipc and socket-fd transports",
 }
+FOCUS10 = {
+    "C16": "the HTTP client reading responses (status line, headers, Content-Length and chunked bodies split across reads, 1xx / 204 / 304 responses without a body, several responses on one connection) and the websocket opening handshake as seen by a conforming peer ('everything they emit is well-formed')",
+    "C20": "objects created and destroyed repeatedly after one failure (contexts, dialers, listeners, aios, messages): 'does not leave the object in a state where later calls misbehave', and failures inside nng_listen / nng_dial of the ipc, tcp and websocket transports before any peer exists",
+    "C14": "'never ADD_POST or REM_POST without ADD_PRE', 'each at most once', callbacks registered or changed while pipes exist, and pipes that are closed by the peer during ADD_PRE / ADD_POST callbacks",
+}
 prop, tag = sys.argv[1], sys.argv[2]
+if len(sys.argv) > 3 and sys.argv[3] == "10":
+    FOCUS = FOCUS10
 if len(sys.argv) > 3 and sys.argv[3] == "9":
     FOCUS = FOCUS9
 if len(sys.argv) > 3 and sys.argv[3] == "8":
